@@ -47,8 +47,11 @@ use crate::utils::util::bbsplus_utils::seeded_random_scalars;
 #[derive(Clone, PartialEq, Eq, Debug, Serialize, Deserialize)]
 /// Represents a BBS+ Proof of Knowledge Signature.
 pub struct BBSplusPoKSignature {
+    #[serde(deserialize_with = "crate::utils::util::bbsplus_utils::checked_serde::g1_not_identity")]
     Abar: G1Projective,
+    #[serde(deserialize_with = "crate::utils::util::bbsplus_utils::checked_serde::g1_not_identity")]
     Bbar: G1Projective,
+    #[serde(deserialize_with = "crate::utils::util::bbsplus_utils::checked_serde::g1_not_identity")]
     D: G1Projective,
     e_cap: Scalar,
     r1_cap: Scalar,
